@@ -279,9 +279,10 @@ let do_reader k rep field data init =
   "pf=" ^ string_of_z pf ^ " pw=" ^ string_of_z pw ^ " rem=" ^ string_of_z rem ^ " err=" ^ es ^ " val=" ^ string_of_val (VList vs)
 
 let do_nested_reader k rep field data init wrap =
-  let (((pf, rem), e), vs) = mx_nested_reader (kind_of_string k) (rep = "1") (z_of_string field) (bytes_of_hex data) (vals_of_string init) (z_of_string wrap) in
-  let es = (match e with None -> "-" | Some (f, c) -> string_of_z f ^ ":" ^ string_of_ecls c) in
-  "pf=" ^ string_of_z pf ^ " rem=" ^ string_of_z rem ^ " err=" ^ es ^ " val=" ^ string_of_val (VList vs)
+  let ((((pf, rem), e), vs), ((pf2, rem2), e2)) = mx_nested_reader (kind_of_string k) (rep = "1") (z_of_string field) (bytes_of_hex data) (vals_of_string init) (z_of_string wrap) in
+  let es x = (match x with None -> "-" | Some (f, c) -> string_of_z f ^ ":" ^ string_of_ecls c) in
+  "pf=" ^ string_of_z pf ^ " rem=" ^ string_of_z rem ^ " err=" ^ es e ^ " val=" ^ string_of_val (VList vs) ^
+  " pf2=" ^ string_of_z pf2 ^ " rem2=" ^ string_of_z rem2 ^ " err2=" ^ es e2
 
 let res_hex = function Panic -> "PANIC" | Ok b -> hex_of_bytes b
 
